@@ -125,6 +125,9 @@ pub fn run_case(c: &HandleHist) -> Option<(String, String)> {
     // give every stream distinct content (does not change slots or shapes)
     let streams: Vec<String> = r.model.root.all_paths().into_iter().filter(|(_, k)| *k == Kind::Stream).map(|(p, _)| p).collect();
     for p in &streams {
+        if c.fill == 3 {
+            break; // fill 3: the setup history has given every stream its content already
+        }
         let rep = r.step(&Op::Rewrite(p.clone(), fill_size(p, c.fill)), &Oracles::LIGHT, &[]);
         if !rep.problems.is_empty() {
             return None;
@@ -314,6 +317,59 @@ pub fn explore_many(ctx: &Ctx, version: u16, names: &[&str], depth: usize) -> HS
                 None => {
                     if depth > 1 {
                         rec(ctx, version, &st, &held, &alpha, &mut seq, depth, &mut cnt, 2);
+                    }
+                }
+            }
+            cnt
+        })
+        .collect();
+    let mut stats = HStats { start_states: 1, handle_choices: 1, sequences: 0, actions: 0 };
+    for (a, b) in counts {
+        stats.sequences += a;
+        stats.actions += b;
+    }
+    stats
+}
+
+/// Handles on /a (300 bytes) and /b (5000 bytes) in a file built by a growth seed (one allocation
+/// short of a new FAT / DIFAT / directory / MiniFAT sector): every sequence up to the depth over
+/// appends of `big` bytes through either handle (each forces new allocation-table sectors), flushes,
+/// and a third stream written through the compound file in between.
+pub fn explore_seeded(ctx: &Ctx, version: u16, seed: &str, big: usize, depth: usize) -> HStats {
+    let mut setup = match crate::seeds::seed_ops(seed) {
+        Ok(o) => o,
+        Err(e) => {
+            ctx.report(Violation { sig: "machinery:bad-seed".into(), class: "machinery".into(), msg: e, replay: json!({}) });
+            return HStats { start_states: 0, handle_choices: 0, sequences: 0, actions: 0 };
+        }
+    };
+    setup.push(Op::Rewrite("/a".into(), 300));
+    setup.push(Op::Rewrite("/b".into(), 5000));
+    let held: Vec<String> = vec!["/a".into(), "/b".into()];
+    let st = StartState { setup, streams: held.clone() };
+    let alpha = vec![
+        HAct::Append(0, big),
+        HAct::Append(1, big),
+        HAct::Flush(0),
+        HAct::Flush(1),
+        HAct::WriteAt0(0, 10),
+        HAct::Comp(Op::Rewrite("/c".into(), big)),
+        HAct::Comp(Op::CreateStream("/e".into())),
+    ];
+    let counts: Vec<(u64, u64)> = alpha
+        .par_iter()
+        .map(|first| {
+            let mut cnt = (1u64, 1u64);
+            let mut seq = vec![first.clone()];
+            let case = HandleHist { version, setup: st.setup.clone(), held: held.clone(), actions: seq.clone(), fill: 3 };
+            match run_case(&case) {
+                Some((class, msg)) => {
+                    let core = msg.splitn(2, ": ").nth(1).unwrap_or(&msg).to_string();
+                    ctx.report(Violation { sig: format!("{}:{}", class, sig_norm(&core).chars().take(90).collect::<String>()), class, msg, replay: json!({"kind": "handles", "handles": case}) });
+                }
+                None => {
+                    if depth > 1 {
+                        rec(ctx, version, &st, &held, &alpha, &mut seq, depth, &mut cnt, 3);
                     }
                 }
             }
